@@ -4,6 +4,7 @@ import javagen as J
 import C01
 
 ID = "C12"
+HARNESS_ENV = {"COCA_BIN": __import__("os").path.join(vlib.ROOT, "harness", "bin", "coca")}
 MODEL_ENTRY = "C12.model"
 SPEC_ENTRY = "C12.spec"
 HARNESS_OP = "java.api"
